@@ -139,7 +139,7 @@ class Group(object):
         has_lc = bool(loops) or any((not isinstance(x, str)) and x[1].get('loops') for x in self.sources)
         self.apply_loops = has_lc if apply_loops is None else apply_loops
         self.extra_instrument = list(extra_instrument)
-        self.object_bits = object_bits
+        self.object_bits = (12 if kind == 'B' else None) if object_bits is None else object_bits
         self.cover_solver = cover_solver
         self.weight = weight
         self.shards = 1 if shards is None else shards
